@@ -21,6 +21,7 @@ import EasyMl.Lemmas.ViewAccessors
 import EasyMl.Lemmas.ViewMatrixBridge
 import EasyMl.Lemmas.ViewWriteMany
 import EasyMl.Lemmas.ViewLawsLayout
+import EasyMl.Lemmas.ViewBuilt
 
 namespace EasyMl.C02
 open EasyMl EasyMl.Spec EasyMl.View
@@ -369,6 +370,27 @@ theorem constructors_establish_wf :
   · intro ss v hs
     exact ⟨fun _ hn h => mkStack_wf hs hn h, fun _ hsum h => mkChain_wf hs hsum h⟩
 
+/-- **The main theorems over constructed views only.**  `Built v` (Spec/ViewBuilt.lean): `v` was
+    obtained from `Tensor::from` / `TensorRefMatrix` over a `Matrix` by the constructors of the
+    adaptors — every form, i.e. also every convenience method of `Tensor` / `TensorView`, which
+    call them —, the mutators `set_names` / `source_ref_mut`, and writes through a view, with no
+    hypothesis beyond the two size assumptions (containers hold at most `usize::MAX` elements).
+    Every such view is well formed, hence: its shape is valid; its checked getters never panic on
+    `usize` coordinates and return the documented cell; the unchecked getters agree on in-bounds
+    indexes; `data_layout` and `from_memory_order` never panic; and what it hands out as sources
+    is constructed-quality (well formed) again. -/
+theorem constructed_views (v : View ν α) (hb : Built v) :
+    v.WF ∧
+    (ValidShape v.shape ∧ ∀ d ∈ v.shape, d.2 ≤ usizeMax) ∧
+    (∀ idx : List Nat, idx.length = v.shape.length → (∀ i ∈ idx, i ≤ usizeMax) →
+      v.get idx = .ok (v.specGet idx)) ∧
+    (∀ idx, inBounds (lens v.shape) idx = true →
+      ∃ c, v.getUnchecked idx = .ok c ∧ v.get idx = .ok (some c)) ∧
+    (∃ l, v.layout = .ok l) ∧ (∃ r, v.fromMemoryOrder = .ok r) ∧
+    (∀ s ∈ v.sources, s.WF) :=
+  ⟨hb.wf, view_shape_valid v hb.wf, view_get_eq_spec v hb.wf, view_unchecked_eq_checked v hb.wf,
+    (layout_never_panics v hb.wf).1, (layout_never_panics v hb.wf).2.1, View.sources_wf v hb.wf⟩
+
 /-! ### Non-vacuity: concrete compositions meet the hypotheses
 
   (dimension names are numbers here: 0 = "a", 1 = "b", 2 = "c", 7 = "x", 8 = "s") -/
@@ -489,6 +511,26 @@ example :
       (a.mkMatrixStack [.range ⟨1, 9⟩ ⟨0, 2⟩, .reverse true true] 7 8).map fun w =>
         ((match w.layout with | .ok l => some l | .panic _ => none), [w.specGet [0, 0], w.specGet [0, 1]])) =
     some (some .other, [some (1, 7), some (1, 3)]) := by decide
+
+/-- the depth-6 composition `ex1` is a constructed view (`Built`), so `constructed_views` speaks
+    about it without any further hypothesis -/
+example : ∀ v, ex1 = some v → Built v := by
+  intro v h
+  simp only [ex1, Option.bind_eq_some_iff] at h
+  obtain ⟨t, ht, r, hr, m, hm, rv, hrv, i, hi, e, he, hv⟩ := h
+  have h0 : Built t := Built.tensor ht (by decide)
+  exact Built.transpose (Built.expansion (Built.index (Built.reverse (Built.mask (Built.range h0 hr) hm) hrv) hi) he) hv
+
+/-- a sequence of writes through `ex1` (two of them at the same index, one outside the shape):
+    the last value per index is read back, the rest is untouched -/
+example : (ex1.bind fun v =>
+    match v.writeMany [([0, 0, 0], 70), ([0, 0, 1], 71), ([0, 0, 0], 72), ([0, 9, 0], 73)] with
+    | .ok v' => some ((match v'.read [0, 0, 0] with | .ok o => o | .panic _ => none),
+        (match v'.read [0, 0, 1] with | .ok o => o | .panic _ => none),
+        (match v'.read [0, 0, 2], v.read [0, 0, 2] with | .ok a, .ok b => a == b | _, _ => false),
+        v'.shape == v.shape)
+    | .panic _ => none) =
+    some (some 72, some 71, true, true) := by decide
 
 /-- the legacy formula (unchanged tree) claims `[1, 0, 2]` for the same view: defect #12 -/
 example : mapLinearDataLayoutToTransposedLegacy
